@@ -304,7 +304,13 @@ Section Machine.
   | ODone                 (* commitRound returns *)
   | OCrash                (* the process dies *)
   | OOpen                 (* OpenLedger starts: databases opened, recoverFromCrash begins *)
-  | OReplay.              (* recoverFromCrash finished: replay, trackers up *)
+  | OReplay               (* recoverFromCrash finished: replay, trackers up *)
+  (* faults the process survives *)
+  | OCommitFails          (* commit goroutine takes the task; the tracker transaction FAILS (a tracker's
+                             commitRound returns an error or panics inside it): db.Accessor.AtomicContext
+                             rolls it back, commitRound returns the error *)
+  | OFlushFails.          (* syncer: the block transaction fails (after any number of BlockPuts) and is
+                             rolled back; the syncer logs and retries later *)
 
   Definition upd_v (s : state) (v : vol) : state := mkState (s_d s) (Up v).
 
@@ -384,6 +390,24 @@ Section Machine.
                                          None (PPostTx t) (v_conf v) (v_added v))))
             end
         | _, _ => None
+        end
+    | OCommitFails, Up v =>
+        match v_phase v, v_chan v with
+        | PIdle, Some t0 =>
+            match adjust (v_dbr v) t0 with
+            | None => None    (* such a task never opens a transaction: that is OCommit *)
+            | Some _ =>
+                (* nothing durable changes; handleCommitError: no tracker memory that lookups or the next
+                   commit depend on has been modified (postCommit did not run) *)
+                Some (upd_v s (mkVol (v_q v) (v_com v) (v_sync v) (v_dbr v) (v_ws v) (v_top v) (v_re v)
+                                     None PIdle (v_conf v) (v_added v)))
+            end
+        | _, _ => None
+        end
+    | OFlushFails, Up v =>
+        match v_sync v with
+        | SIdle => if 1 <=? length (v_q v) then Some s else None   (* lastCommitted and the queue are untouched *)
+        | _ => None
         end
     | OPost, Up v =>
         match v_phase v with
